@@ -430,3 +430,54 @@ def checkpoint_replaces(ctx, rule='CKP'):
              for n in own_nodes(fl.node))
     run.check(ok, rule, fl.where, fl.qualname, 'links = link.handle_flow_checkpoint(links)',
               'Flow does not hand the preceding links to the checkpoint')
+
+
+def descriptor_never_skipped(ctx, rule='R19d'):
+    """The descriptor goes through the same write_file_to_output as the data files.  A path of that method that returns without
+    placing anything (the `existing content-addressed file` shortcut) must be closed to the descriptor: its guards contain a test
+    that tells the descriptor's name apart.  The descriptor's path never carries a hash, so without such a test a second dump into
+    the same directory keeps the previous run's datapackage.json - the stats returned by process() and the data files then
+    disagree with the descriptor on disk, and load() of it returns the previous data."""
+    from sa.paths import RAISE, Enumerator
+    from sa.pathvals import PathValues
+    run, repo, res = ctx.run, ctx.repo, ctx.res
+    run.rule(rule, 'DESCRIPTOR-ALWAYS-WRITTEN: in every write_file_to_output of a file dumper, a path that returns without copying / '
+                   'writing the file (skip of an existing content-addressed file) carries a test that excludes the descriptor '
+                   '(datapackage.json, whose path has no hash): the descriptor of a dump is always the one of this run')
+    fd = file_dumper(ctx)
+    # the name the descriptor is written under, from the call in handle_datapackage
+    hd = ctx.N(fd.methods['handle_datapackage'])
+    names = {c.args[1].value for c in ast.walk(hd.node) if isinstance(c, ast.Call) and isinstance(c.func, ast.Attribute)
+             and c.func.attr == 'write_file_to_output' and len(c.args) == 2 and isinstance(c.args[1], ast.Constant)}
+    if len(names) != 1:
+        raise AnalysisError('FileDumper.handle_datapackage: the call writing the descriptor was not found')
+    dname = names.pop()
+    PLACERS = ('shutil.copy', 'shutil.copyfile', 'shutil.copy2', 'shutil.move', 'os.rename', 'os.replace')
+    n = 0
+    for c_ in res.subclasses(fd, strict=True):
+        w = c_.methods.get('write_file_to_output')
+        if w is None:
+            continue
+        wn = ctx.N(w)
+        for p in Enumerator(where=w.qualname).paths(wn.node.body):
+            if p.term == RAISE:
+                continue
+            nodes = [x for it in p.items if it.kind in ('stmt', 'return') for x in ast.walk(it.node)]
+            places = any(isinstance(x, ast.Call) and (res.external_name(x) in PLACERS or
+                                                      (isinstance(x.func, ast.Attribute) and x.func.attr in ('write', 'writestr')))
+                         for x in nodes)
+            n += 1
+            if places:
+                run.ok(rule, w.where, w.qualname + ': ' + (' & '.join(('' if pol else 'not ') + u(t) for t, pol in p.guards()) or '<always>'),
+                       'the file is placed')
+                continue
+            pv = PathValues(p)
+            excl = any(isinstance(k, ast.Constant) and k.value == dname for t, pol in list(p.guards()) + list(pv.guards)
+                       for k in ast.walk(t))
+            run.check(excl, rule, w.where, w.qualname, 'skip path excludes %s: %s' % (dname, ' & '.join(('' if pol else 'not ') + u(t)
+                                                                                                  for t, pol in p.guards())),
+                      'write_file_to_output can return without writing the file and nothing on that path tells %s apart from a data '
+                      'file: dumping again into a directory that already holds a dump (add_filehash_to_path) keeps the old descriptor, '
+                      'which then describes neither the files of this run nor the stats process() returns' % dname,
+                      path=p.describe())
+    return n
